@@ -1,5 +1,6 @@
 import MantraDex.Model.HistMon
 import MantraDex.Model.SsMon
+import MantraDex.Model.FarmMath
 import MantraDex.Driver.PoolStream
 
 namespace MantraDex.Driver
@@ -283,6 +284,26 @@ def monOp (op : String) (args : List String) : Option String :=
     | [remaining, startNs, expS, nowNs] =>
       some (if remaining == 0 || startNs + expS * 1000000000 < nowNs then "ok" else "viol C11-closed-before-expiry")
     | _ => none
+  | "mon_close_conserves" => do
+    let (sb, ts) ← pNat args
+    let (sa, ts) ← pNat ts
+    let (dfm, _) ← pInt ts
+    some (if sb == sa && dfm == 0 then "ok" else "viol C08-close-conserves,C05-custody")
+  | "mon_penalty_amount" => do
+    -- <amount> <unlocking duration> <expiring at|-> <now s> <base penalty atomics> <Δ owner>
+    let (amt, ts) ← pNat args
+    let (dur, ts) ← pNat ts
+    let (exp, ts) ← pOptNat ts
+    let (now, ts) ← pNat ts
+    let (base, ts) ← pNat ts
+    let (got, _) ← pInt ts
+    let pv : PosView := { amount := amt, unlockingDuration := dur, expiringAt := exp }
+    some (match calculateEmergencyPenalty pv base now with
+      | .ok rate =>
+        match penaltySplit amt rate 0 with
+        | .ok sp => if got == (sp.ownerPayout : Int) then "ok" else "viol C09-penalty-amount"
+        | .error _ => "viol C09-penalty-amount"
+      | .error _ => "viol C09-penalty-amount")
   | "mon_tol_monotone" => do
     -- only emitted when the same deposit was refused under the larger and accepted under the smaller tolerance
     some "viol C13-tolerance-not-monotone"
